@@ -199,6 +199,26 @@ func genC02(seed, index uint64, tier string) *Plan {
 			}
 		}
 	}
+	if g.Chance(0.3) {
+		// several resources share ONE name across kinds (and across namespaces): identity is more than the name
+		for ci := range p.Charts {
+			for si := range p.Charts[ci].Slots {
+				s := &p.Charts[ci].Slots[si]
+				if s.Hook != nil {
+					continue
+				}
+				switch s.Kind {
+				case "ConfigMap", "Secret", "ServiceAccount", "Service", "Widget":
+					if strings.HasSuffix(s.Name, "1") {
+						s.Name = "shared"
+					}
+					if strings.HasSuffix(s.Name, "2") && s.Kind == "ConfigMap" {
+						s.Name, s.NS = "shared", "other"
+					}
+				}
+			}
+		}
+	}
 	// bystanders
 	for i := 0; i < g.N(4); i++ {
 		kind := g.Pick("ConfigMap", "Secret", "Service", "ServiceAccount")
